@@ -111,6 +111,16 @@ def _c04_e_case(shape, text, preemptions):
     return case
 
 
+def _strong_join_reset(model, v):
+    """F14 through the real engine (real threads, sqlite): the join of a
+    'join: one' workflow runs twice when the slower branch finishes late"""
+    if 'join-reset' not in (v.get('signature') or ''):
+        return True, 'no strong replay for this kind of violation'
+    from vt import kit
+    return kit.run_strong_test('test_c04_join_one_late_branch.py',
+                               timeout=45)
+
+
 @obligation(
     'C04.E', engine='symx+world(minidb)',
     functions=['mistral.engine.tasks:Task.defer',
@@ -143,7 +153,9 @@ def c04_e(ctx):
                   'nested_joins', 'conditional', 'join_fed_by_error'):
         yield Case(shape, _c04_e_case(shape, shapes.RUN_SHAPES[shape],
                                       ctx.pick(1, 2)),
-                   needed=['quiescent', 'join-started'], max_paths=300000)
+                   needed=['quiescent', 'join-started'], max_paths=300000,
+                   replay=_strong_join_reset if shape == 'join_one'
+                   else None)
 
 
 # ---------------------------------------------------------------------------
